@@ -57,6 +57,31 @@ def run(tier):
         elif k[0] != "exec_error" or rng.random() < 0.07:
             directed.append(rng.choice(v))
     log(f"[C18] directed pipelines: {len(drows)} programs, {len(dsig)} signatures, {len(directed)} replayed")
+    # directed binary programs (two loads; one binary operation on them; publish), also enumerated exhaustively: one program per
+    # signature (operation, the two loaded types with their widths, operand choice, outcome); on the quick tier the signatures
+    # with two big integers of different limb counts, and a sample of the rest
+    d2 = vlib.run_tlc("Zkir.tla", "Dir2_Zkir.cfg", "C18", workers=8, timeout=1800)
+    vlib.require_tlc_ok(d2, "Zkir (directed binary programs)")
+    d2rows = vlib.parse_replay_lines(d2["out"])
+    d2sig = collections.defaultdict(list)
+
+    def limbs(ins):
+        t = ins["op"].get("load") if isinstance(ins["op"], dict) else None
+        return (t["BigUint"] + 95) // 96 if isinstance(t, dict) and "BigUint" in t else None
+    for r in d2rows:
+        wl = [json.dumps(w["val"], sort_keys=True) for w in r["wit"]]
+        d2sig[(r["expect"], json.dumps([i["op"] for i in r["prog"]], sort_keys=True), json.dumps([i["inputs"] for i in r["prog"][2:3]]),
+               "samelow" if len(wl) == 2 and ('"v": 3' in wl[0] or '"plus": 3' in wl[0]) and ('"v": 3' in wl[1] or '"plus": 3' in wl[1]) else "")].append(r)
+    directed2 = []
+    for k in sorted(d2sig):
+        v = sorted(d2sig[k], key=lambda r: json.dumps(r, sort_keys=True))
+        r0 = v[0]
+        l = [limbs(i) for i in r0["prog"][:2]] if len(r0["prog"]) >= 2 else [None, None]
+        mixed_big = None not in l and l[0] != l[1]
+        if tier == "thorough" or (mixed_big and k[0] != "exec_error") or rng.random() < 0.01:
+            directed2.append(rng.choice(v))
+    log(f"[C18] directed binary programs: {len(d2rows)} programs, {len(d2sig)} signatures, {len(directed2)} replayed")
+    directed += directed2
     per = 45 if tier == "quick" else 500
     pick = list(directed)
     for k in sorted(by):
